@@ -300,6 +300,35 @@ def step (line : String) : String :=
         | .error e => err e
       | _, _, _, _, _, _ => "bad-op"
     | _, _, _, _, _, _, _, _, _ => "bad-op"
+  | ["applylocorc", mode, c, bits, L, S, dO, dH, dF, mO, mH, mF, yO, yH, yF, obs, H, F] =>
+    -- `apply_location` with per-window oracle decisions (C06: `detrending = True` on shuffled storage): `bits` is a
+    -- comma-separated list of oracle tokens, one per window in loop order (centres of `useCenters` / months 1..12);
+    -- the oracles are keyed by the index list of the future window, as in `Model.Isimip.winFn`
+    match cfg? c, parseInt? L, parseInt? S, ints? dO, ints? dH, ints? dF, ints? mO, ints? mH, ints? mF with
+    | some c, some L, some S, some dO, some dH, some dF, some mO, some mH, some mF =>
+      match ints? yO, ints? yH, ints? yF, rats? obs, rats? H, rats? F with
+      | some yO, some yH, some yF, some obs, some H, some F =>
+        let keys : List (List Nat) :=
+          if mode = "rw" then (Model.Windows.useCenters S dF).map (Model.Windows.idxWindow L dF)
+          else (Py.arange1 1 13).map (fun m => Py.whereTrue (mF.map (fun x => decide (x = m))))
+        let os := (bits.splitOn ",").filterMap (fun b => orc? b [] [])
+        if os.length ≠ keys.length then "badkeys" else
+        let tbl := keys.zip os
+        let orcF : List Nat → Oracles := fun ix =>
+          match tbl.find? (fun p => p.1 == ix) with | some p => p.2 | none => {}
+        let r := if mode = "rw" then applyLocationRW c ratSigmoid orcF (fun _ => {}) L S dO dH dF yO yH yF obs H F
+                 else applyLocationMonths c ratSigmoid orcF (fun _ => {}) mO mH mF dO dH dF yO yH yF obs H F
+        -- a rank tie among the detrended future values of some window: numpy's choice inside the tie group is arbitrary
+        let tie := match step1 c obs H F dO dH dF with
+          | .ok (_, _, f1, _) => keys.any (fun k =>
+              let v := (step3RemoveTrend c ((orcF k).sigF) (Model.Skeleton.take f1 k) (Model.Skeleton.take yF k)).1
+              c.detrending && v.eraseDups.length ≠ v.length)
+          | .error _ => false
+        match r with
+        | .ok v => s!"ok {showOptList showRat v} {showFlags [("ctie", tie)]}"
+        | .error e => err e
+      | _, _, _, _, _, _ => "bad-op"
+    | _, _, _, _, _, _, _, _, _ => "bad-op"
   | ["step8", c, F, cyc, dF] =>
     match cfg? c, rats? F, (if cyc = "none" then some none else (rats? cyc).map some), ints? dF with
     | some c, some F, some cyc, some dF =>
